@@ -21,6 +21,9 @@ RULE = ("both pairing-friendly curves, variants map / tatep / weilp / oatep: ope
         "representations; scalars 0, 1, r-1, r, negative, random; multi-pairings of length 0..5 with identities at arbitrary positions; "
         "non-trivial = line with non-identity operands and ab != 0 mod r")
 
+GENERATED = ["pp"]
+EXTRA_THEOREM_MODULES = ["RelicVerif.Props.C04B"]
+
 IDS = {"base": [23, 24]}
 VARIANTS = ["map", "tatep", "weilp", "oatep"]
 
@@ -81,6 +84,73 @@ def gen_lines(rng, st, count):
     return out
 
 
+def fp12tok(cs):
+    return ",".join("%x" % c for c in cs)
+
+
+def special_elements(rng, st):
+    """elements of Fp12 by class (flat memory order of fp12_t; index 0 = the Fp part): 0, 1, -1, subfield elements (killed by the easy
+    part), roots of unity of small order, single-coefficient elements, coefficients next to p"""
+    p = st.p
+    unit = lambda i, v=1: [v if j == i else 0 for j in range(12)]
+    out = [("zero", [0] * 12), ("one", unit(0)), ("minus-one", unit(0, p - 1)), ("fp", unit(0, 2)), ("fp", unit(0, rng.bits(300) % p or 1))]
+    # a primitive cube root of unity in Fp (p = 1 mod 3 for both families)
+    if p % 3 == 1:
+        g = 2
+        while pow(g, (p - 1) // 3, p) == 1:
+            g += 1
+        out.append(("order-3", unit(0, pow(g, (p - 1) // 3, p))))
+    out.append(("fp2", [rng.bits(300) % p, rng.bits(300) % p] + [0] * 10))          # in Fp2
+    out.append(("fp2-i", unit(1)))                                                    # the adjoined square root (order 4 when qnr = -1)
+    out.append(("fp6", [rng.bits(300) % p for _ in range(6)] + [0] * 6))             # in Fp6: killed by p^6 - 1
+    for i in (2, 4, 6, 8, 11):
+        out.append(("single", unit(i, rng.choice([1, 2, p - 1]))))
+    out.append(("near-p", [p - 1 - rng.below(3) for _ in range(12)]))
+    out.append(("near-p", [rng.choice([0, 1, p - 1]) for _ in range(12)]))
+    return out
+
+
+def sps_lists(rng, shipped):
+    """sparse forms for fp12_exp_cyc_sps: every shape of the code (len 0, b[0] == 0 or not, negative entries, one entry, long gaps),
+    the shipped form and its lowered copy (the `_b` array of pp_exp_b12), and lists that are not ascending (j never goes back)"""
+    out = [[], [0], [1], [-1], [2], [-3], [0, 1], [0, -1], [0, 2], [0, -2], [1, 2], [1, -2], [-1, 2], [-1, 3], [2, -4], [0, 1, 2, 3], [0, -2, 4, -6],
+           [7], [0, 64], [0, -64], [63], [-63, 64], [3, 70], list(shipped), [b - 1 if b > 0 else b + 1 for b in shipped if b != 0],
+           [5, 3], [0, 0], [4, 4], [0, 3, 2, 6]]
+    for _ in range(8):
+        n = 1 + rng.below(7)
+        pos = sorted(rng.below(66) for _ in range(n))
+        pos = [q for i, q in enumerate(pos) if i == 0 or q != pos[i - 1]]
+        out.append([q if (q == 0 or rng.chance(1, 2)) else -q for q in pos])
+    return out
+
+
+def gen_fexp(ctx, ex, cid, st, kv, count):
+    """final exponentiation on arbitrary elements, the easy part, the sparse exponentiation"""
+    rng = ctx.rng
+    valid, cyc, rnd, _ = pg.gt_elements(ex, cid, rng, st, max(4, count // 6))
+    lines = []
+    spec = special_elements(rng, st)
+    for i, (_cls, a) in enumerate(spec):
+        lines.append("fexp %s %s" % ("ali" if i % 2 else "sep", fp12tok(a)))
+    for _cls, a in spec[:8]:
+        lines.append("fcyc %s %s" % (rng.choice(["sep", "ali"]), fp12tok(a)))
+    pool = [("generic", a) for a in rnd] + [("cyc", a) for a in cyc] + [("gt", a) for a in valid]
+    for i in range(count):
+        _c, a = pool[i % len(pool)] if pool else ("one", fp12tok(spec[1][1]))
+        lines.append("fexp %s %s" % (rng.choice(["sep", "ali"]), a))
+    for a in rnd[:3] + cyc[:1]:
+        lines.append("fcyc %s %s" % (rng.choice(["sep", "ali"]), a))
+    shipped = [] if kv.get("sps", ".") == "." else [int(t) for t in kv["sps"].split(",")]
+    bases = (cyc + valid) or [fp12tok(spec[1][1])]
+    for i, b in enumerate(sps_lists(rng, shipped)):
+        a = bases[i % len(bases)] if i % 7 else fp12tok(spec[1][1])
+        lines.append("expsps %s %s %s %s" % (rng.choice(["sep", "ali"]), a, "neg" if i % 3 == 1 else "pos", ",".join(str(t) for t in b) or "."))
+    # a non-cyclotomic operand: outside the contract of the compressed squarings, compared only
+    if rnd:
+        lines.append("expsps sep %s pos 0,3" % rnd[0])
+    return lines
+
+
 def streams(ctx, scale=1):
     per = (60 if ctx.tier == "quick" else 1200) * scale
     res = []
@@ -92,6 +162,7 @@ def streams(ctx, scale=1):
 def _stream(ctx, cfg, per):
     ex = pg.exe(ctx, cfg)
     lines = ["cfg"]
+    flines = ["cfg"]
     for cid in (IDS.get(cfg) or pg.pairing_ids(ex)):
         kv = pg.info(ex, cid)
         if "p" not in kv:
@@ -99,7 +170,10 @@ def _stream(ctx, cfg, per):
         st = pg.Setting(kv)
         lines.append("pc_param %d" % cid)
         lines += gen_lines(ctx.rng, st, per)
-    return [{"name": "pp-" + cfg, "cfg": cfg, "exe": ex, "lines": lines}]
+        flines.append("pc_param %d" % cid)
+        flines += gen_fexp(ctx, ex, cid, st, kv, max(8, per // 5) if cfg == "base" else max(6, per // 8))
+    return [{"name": "pp-" + cfg, "cfg": cfg, "exe": ex, "lines": lines},
+            {"name": "fexp-" + cfg, "cfg": cfg, "exe": ex, "lines": flines}]
 
 
 def search_streams(ctx, mfail):
